@@ -5,7 +5,7 @@ CONSTANTS
   Kind = "nameaddr"
   Atoms <- AtomsQuoteV
   Prefix <- PfxABVal
-  MaxLen = 10
+  MaxLen = 11
   Cfgs <- CfgsNA8
   Junk = 34
   EmitOn = TRUE
